@@ -89,3 +89,22 @@ Example C08_channel_nonvacuous :
   (cyields (clog _ (xb s)), map snd (xlog s), bad (qx s)) =
   ([100; 101], [XSlot 0; XSlot 1; XSlot 2; XCancelled 2; XSent 0; XSent 1], false).
 Proof. vm_compute. reflexivity. Qed.
+
+(* ---- the reserve API of the zero-copy Uni channels (Chan/ChanZX.v, in lock-step with uni/channels/zero_copy/{atomic,full_sync}.rs):
+   reserve = an allocation from the pool, send-reserved = the publication of the slot id, cancel = the deallocation.  For every
+   interleaving of reservations, sends, cancels, plain sends, polls, drives, length queries and cancellations by any number of threads,
+   the ring of slot ids and the pool's free list of the zero-copy atomic channel remain runs of the ring machine: a reserved-and-sent slot
+   is delivered exactly once, in the order the ids entered the ring; a cancelled one never enters it; the ring invariant (capacity,
+   exclusive slot access) holds of both ---- *)
+From RM Require Import ZeroCopy ZcUni ChanZ ChanZProps ChanZInst ChanZX ChanZXProps ChanZXInst.
+Theorem C08_zero_copy_atomic_reserved_ids_exactly_once_in_order :
+  forall N, 0 < N -> forall M k ws wr evs,
+    let l := log (ub st (zq st (zx_run N M k ws wr evs))) in yielded_of l = firstn (length (yielded_of l)) (accepted_of l).
+Proof. exact zx_atomic_ids_exactly_once_in_order. Qed.
+Print Assumptions C08_zero_copy_atomic_reserved_ids_exactly_once_in_order.
+
+Theorem C08_zero_copy_atomic_components_invariant :
+  forall N, 0 < N -> forall M k ws wr evs,
+    Inv N (ub st (zq st (zx_run N M k ws wr evs))) /\ Inv N (ua st (zq st (zx_run N M k ws wr evs))).
+Proof. exact zx_atomic_components_invariant. Qed.
+Print Assumptions C08_zero_copy_atomic_components_invariant.
